@@ -64,7 +64,7 @@ func (c09) Info() core.Info {
 			"sections with alignment stuffing are not 'canonical': re-encoding their decoded form need not reproduce the stuffing",
 			"on a decoded signal with foreign descriptors the descriptor list is not replaced (where foreign descriptors would go is not defined); their order relative to segmentation descriptors must be kept",
 		},
-		RequiredProbes: []string{"encoded", "decoded_again", "reencoded_identical", "start_from_decoded", "flag_cleared_after_set", "value_beyond_field_width", "insert_cancelled", "insert_component_mode", "insert_with_duration", "descriptor_cancelled", "descriptor_components", "mid_set", "upid_set", "sub_segments", "command_replaced", "descriptors_replaced", "foreign_descriptor", "pts_adjustment_nonzero", "pts_adjustment_wraps", "data_unchanged_between_encodings", "no_effect_call", "three_descriptors", "component_edited_through_getter_object", "upid_of_a_mid_edited_through_getter_object", "sub_segment_flag_on_type_0x38_or_0x3A", "command_of_256_bytes_or_more", "pts_adjustment_on_a_command_without_time", "decoded_section_with_command_length_0xFFF"},
+		RequiredProbes: []string{"encoded", "decoded_again", "reencoded_identical", "start_from_decoded", "flag_cleared_after_set", "value_beyond_field_width", "insert_cancelled", "insert_component_mode", "insert_with_duration", "descriptor_cancelled", "descriptor_components", "mid_set", "upid_set", "sub_segments", "command_replaced", "descriptors_replaced", "foreign_descriptor", "pts_adjustment_nonzero", "pts_adjustment_wraps", "data_unchanged_between_encodings", "no_effect_call", "three_descriptors", "component_edited_through_getter_object", "upid_of_a_mid_edited_through_getter_object", "sub_segment_flag_on_type_0x38_or_0x3A", "command_of_256_bytes_or_more", "pts_adjustment_on_a_command_without_time", "decoded_section_with_command_length_0xFFF", "own_components_handed_back_reordered", "encryption_algorithm_bits_set"},
 	}
 }
 
@@ -162,6 +162,9 @@ func c09GenSection(r *core.Rand) *ref.Section {
 	// pts_adjustment is a field of every section, whatever the command (a re-stamping device
 	// adds its offset to splice_nulls and immediate splices too)
 	s.Adjust = r.Pick64(0, 0, 1, 1<<33-1, c09U33(r))
+	if r.Chance(1, 8) {
+		s.EncAlg = r.Pick(1, 2, 0x3F, r.Intn(64)) // clear packet, but the 6 algorithm bits are not 0
+	}
 	n := r.Pick(0, 1, 1, 2, 3)
 	foreign := r.Chance(1, 3)
 	for i := 0; i < n; i++ {
@@ -312,7 +315,9 @@ func (c09) Gen(r *core.Rand, tier string) interface{} {
 				op.Op, op.B = "has_sub", r.Bool()
 			case 19:
 				// through the objects the getters hand out
-				if r.Bool() {
+				if r.Chance(1, 3) {
+					op.Op = "comps_reorder" // hand the descriptor its own components back, reversed
+				} else if r.Bool() {
 					op.Op, op.U = "comp_edit", uint64(r.Intn(4))
 					op.Comps = []ref.SegComp{{Tag: r.Intn(256), Off: r.Pick64(c09U33(r), 1<<33+2)}}
 				} else {
@@ -449,6 +454,7 @@ func (c09) Exec(script interface{}, c *core.Ctx) {
 	// signal model
 	var desired uint64 // the signal's PTS (what PTS() reports)
 	tier, cw, stuffing := 0xFFF, 0, 0
+	encAlg := 0 // kept from a decoded section (there is no setter for it)
 	curCmd := ""
 	var items []string // names of attached descriptors, "f<i>" for foreign ones
 	foreign := map[string]core.Hex{}
@@ -484,6 +490,9 @@ func (c09) Exec(script interface{}, c *core.Ctx) {
 		sec.Stuffing = 0
 		enc, _ := sec.Bytes() // the canonical form
 		input := enc          // what the decoder is given
+		if sec.EncAlg != 0 {
+			c.Probe("encryption_algorithm_bits_set")
+		}
 		if s.LegacyLen {
 			input = append([]byte(nil), enc...)
 			input[11] |= 0x0F
@@ -504,7 +513,7 @@ func (c09) Exec(script interface{}, c *core.Ctx) {
 			c.Fail("decode_canonical", "initial_section_not_decoded", err, "a signal")
 			return
 		}
-		tier, cw = sec.Tier, sec.CW
+		tier, cw, encAlg = sec.Tier, sec.CW, sec.EncAlg
 		vis := c09VisibleCmd(sec.Cmd)
 		var own scte35.SpliceCommand
 		var ds []scte35.SegmentationDescriptor
@@ -598,7 +607,7 @@ func (c09) Exec(script interface{}, c *core.Ctx) {
 	}
 
 	section := func() ref.Section {
-		sec := ref.Section{Tier: tier, CW: cw, Stuffing: stuffing, Cmd: cmds[curCmd].m}
+		sec := ref.Section{Tier: tier, CW: cw, Stuffing: stuffing, Cmd: cmds[curCmd].m, EncAlg: encAlg}
 		if sec.Cmd.CarriesTime() {
 			sec.Adjust = (desired - sec.Cmd.Time.PTS) & c09Mask33
 		}
@@ -983,6 +992,12 @@ func c09DescOp(c *core.Ctx, dd *c09Desc, op C09Op) bool {
 				l = append(l, x)
 			}
 			d.SetMID(l)
+		case "comps_reorder":
+			cs := d.Components()
+			for i, j := 0, len(cs)-1; i < j; i, j = i+1, j-1 {
+				cs[i], cs[j] = cs[j], cs[i]
+			}
+			d.SetComponents(cs)
 		case "comp_edit":
 			if cs := d.Components(); len(op.Comps) == 1 && int(op.U) < len(cs) && int(op.U) < len(m.Comps) {
 				cs[op.U].SetComponentTag(byte(op.Comps[0].Tag))
@@ -1069,6 +1084,15 @@ func c09DescOp(c *core.Ctx, dd *c09Desc, op C09Op) bool {
 			m.MID = append([]ref.UPID(nil), op.MID...)
 		} else {
 			c09NoEffect(c)
+		}
+	case "comps_reorder":
+		rev := make([]ref.SegComp, len(m.Comps))
+		for i := range m.Comps {
+			rev[len(m.Comps)-1-i] = m.Comps[i]
+		}
+		m.Comps = rev
+		if len(rev) >= 2 {
+			c.Probe("own_components_handed_back_reordered")
 		}
 	case "comp_edit":
 		if len(op.Comps) == 1 && int(op.U) < len(m.Comps) {
